@@ -166,12 +166,26 @@ def build(case):
             off, levels = it[1], it[2]
             fn = f"inc{n}.md"
             body = []
+            nested = it[4] if len(it) > 4 else None
             for j, L in enumerate(levels):
                 m = f"ih{n}x{j}"
                 body += ["#" * L + " " + m, "", f"iq{n}x{j} para", ""]
                 events.append(("h", m, L + off))
                 order += [m, f"iq{n}x{j}"]
                 hline[m] = None
+                if nested and j == 0:
+                    # an include inside the included file (its own offset applies there), followed by more headings of the outer file
+                    off2, lv2 = nested
+                    fn2 = f"inc{n}n.md"
+                    b2 = []
+                    for jj, L2 in enumerate(lv2):
+                        m2 = f"ih{n}y{jj}"
+                        b2 += ["#" * L2 + " " + m2, "", f"iq{n}y{jj} para", ""]
+                        events.append(("h", m2, L2 + off2))
+                        order += [m2, f"iq{n}y{jj}"]
+                        hline[m2] = None
+                    files[fn2] = "\n".join(b2)
+                    body += ["```{include} " + fn2] + ([f":heading-offset: {off2}"] if off2 else []) + ["```", ""]
             files[fn] = "\n".join(body)
             lines += ["```{include} " + fn] + ([f":heading-offset: {off}"] if off or it[3] else []) + ["```", ""]
     return "\n".join(lines) + "\n", events, rubrics, order, hline, files
@@ -351,7 +365,8 @@ def run_shard(ctx):
             elif x < 0.92:
                 items.append(["b", R.choice(["hr", "code", "list", "target", "comment", "fence", "table", "break"])])
             else:
-                items.append(["inc", R.choice([0, 0, 1, 2, 3, 5]), [R.randint(1, 6) for _ in range(R.randint(1, 3))], R.random() < 0.5])
+                items.append(["inc", R.choice([0, 0, 1, 2, 3, 5]), [R.randint(1, 6) for _ in range(R.randint(1, 3))], R.random() < 0.5,
+                              [R.choice([0, 0, 1, 2]), [R.randint(1, 6) for _ in range(R.randint(0, 2))]] if R.random() < 0.4 else None])
         case = {"kind": "mixed", "items": items}
         eval_case(ctx, case)
         nh = sum(1 for it in items if it[0] in ("h", "c", "inc"))
